@@ -547,7 +547,9 @@ func (p Prop) J5S(enum EnumEnv) string {
 	}
 	fmt.Fprintf(&sb, "\tfield %s %s {\n", p.Name, tag)
 	if p.Desc != "" {
-		fmt.Fprintf(&sb, "\t\t| %s\n", p.Desc)
+		for _, l := range strings.Split(p.Desc, "\n") {
+			fmt.Fprintf(&sb, "\t\t| %s\n", l)
+		}
 	}
 	if p.Req {
 		sb.WriteString("\t\trequired = true\n")
